@@ -76,19 +76,22 @@ def scanString : List Byte → Option Nat
   | 34 :: rest => (findByte 34 rest).map (· + 2)
   | _ => none
 
+def byteAlt1 : List Byte → Bool
+  | 92 :: 120 :: h1 :: h2 :: 39 :: _ => isHex h1 && isHex h2
+  | _ => false
+
+def byteAlt2 : List Byte → Bool
+  | 92 :: c :: 39 :: _ => !(c = 10)
+  | _ => false
+
+def byteAlt3 : List Byte → Bool
+  | c :: 39 :: _ => decide (c ≤ 127)
+  | _ => false
+
 /-- `'(?:\\x[0-9a-fA-F]{2}|\\.|[\x00-\x7F])'` (alternatives in order, the closing quote is part of each try) -/
 def scanByte : List Byte → Option Nat
   | 39 :: rest =>
-    let alt1 := match rest with
-      | 92 :: 120 :: h1 :: h2 :: 39 :: _ => isHex h1 && isHex h2
-      | _ => false
-    let alt2 := match rest with
-      | 92 :: c :: 39 :: _ => !(c = 10)
-      | _ => false
-    let alt3 := match rest with
-      | c :: 39 :: _ => decide (c ≤ 127)
-      | _ => false
-    if alt1 then some 6 else if alt2 then some 4 else if alt3 then some 3 else none
+    if byteAlt1 rest then some 6 else if byteAlt2 rest then some 4 else if byteAlt3 rest then some 3 else none
   | _ => none
 
 /-- `D(?:D|_D)*` after the first digit has been seen: number of further bytes -/
@@ -114,27 +117,31 @@ def scanPrefixed (m1 m2 : Byte) (p : Byte → Bool) : List Byte → Option Nat
     else none
   | _ => none
 
+/-- `(?:\.Dec)?` : bytes consumed -/
+def fracLen : List Byte → Nat
+  | 46 :: r => let k := digitsRun isDigit r; if k = 0 then 0 else 1 + k
+  | _ => 0
+
+/-- `(?:[eE][+-]?Dec)?` : bytes consumed -/
+def expLen : List Byte → Nat
+  | c :: r =>
+    if c = 101 || c = 69 then
+      match r with
+      | sg :: r' =>
+        if sg = 43 || sg = 45 then
+          let k := digitsRun isDigit r'; if k = 0 then 0 else 2 + k
+        else
+          let k := digitsRun isDigit r; if k = 0 then 0 else 1 + k
+      | [] => 0
+    else 0
+  | [] => 0
+
 /-- FloatNumber = Dec (?:\.Dec)? (?:[eE][+-]?Dec)? -/
 def scanFloat (s : List Byte) : Option Nat :=
   let n := digitsRun isDigit s
   if n = 0 then none else
-  let r1 := s.drop n
-  let f := match r1 with
-    | 46 :: r => let k := digitsRun isDigit r; if k = 0 then 0 else 1 + k
-    | _ => 0
-  let r2 := r1.drop f
-  let e := match r2 with
-    | c :: r =>
-      if c = 101 || c = 69 then
-        match r with
-        | sg :: r' =>
-          if sg = 43 || sg = 45 then
-            let k := digitsRun isDigit r'; if k = 0 then 0 else 2 + k
-          else
-            let k := digitsRun isDigit r; if k = 0 then 0 else 1 + k
-        | [] => 0
-      else 0
-    | [] => 0
+  let f := fracLen (s.drop n)
+  let e := expLen ((s.drop n).drop f)
   some (n + f + e)
 
 def scanUnsigned (s : List Byte) : Option Nat :=
